@@ -273,7 +273,14 @@ def run_ops(label, ctor, ops, scratch):
                 if newname is None:
                     continue
                 c = a.copy(newname)
-                if not same_dict(dict(c.items()), ref if not null else {}):
+                try:
+                    copied = dict(c.items())
+                except Exception as e:
+                    copied = None
+                    problems.append({'step': i, 'op': op, 'what': 'the archive returned by copy(name) cannot be read: %s: %s' % (type(e).__name__, e)})
+                if copied is None:
+                    pass
+                elif not same_dict(copied, ref if not null else {}):
                     problems.append({'step': i, 'op': op, 'what': 'copy(name) is not an equal archive: %r vs %r' % (dict(c.items()), ref)})
                 else:
                     kk = next(iter(ref), None)
@@ -455,7 +462,7 @@ def sql_rows_check(sd, n):
                     rows = list(con.execute('select * from memo order by rowid'))
                 finally:
                     con.close()
-                lines.append('d.rows'); got.append(('rows ' + ' '.join('%d:%d' % (r[0], r[1]) for r in rows)).strip())
+                lines.append('d.rows'); got.append(('rows ' + ' '.join('%s:%s' % (_iv(r[0]), _iv(r[1])) for r in rows)).strip())
                 stmts.append(None)
             out = run_model(lines)
             nops += len(lines)
@@ -550,7 +557,7 @@ def dir_entries_check(sd, n):
                         lines.append('d.items'); got.append('items*' + ' '.join(sorted('%d:%d' % p for p in a.items())))
                 except KeyError:
                     got.append('keyerror')
-                lines.append('d.entries'); got.append(('entries ' + ' '.join('%d:%d:%d' % e for e in entries(path))).strip())
+                lines.append('d.entries'); got.append(('entries ' + ' '.join('%s:%s:%s' % tuple(_iv(x) for x in e) for e in entries(path))).strip())
             out = run_model(lines)
             nops += len(lines)
             for ln, o, g in zip(lines, out, got):
@@ -566,6 +573,11 @@ def dir_entries_check(sd, n):
     finally:
         sc.close()
     return bad, nops
+
+
+def _iv(x):
+    """an integer as the model prints it; anything else (a key that changed type in the store) spelled out"""
+    return '%d' % x if isinstance(x, int) and not isinstance(x, bool) else repr(x)
 
 
 def _sql_statements(log):
@@ -673,8 +685,14 @@ def main():
     dir_bad, dir_n = [], 0
     if pinfo.get('build_ok'):
         spec_bad, spec_n = spec_check(sd, 400 if thorough else 60)
-        sql_bad, sql_n = sql_rows_check(sd, 300 if thorough else 60)
-        dir_bad, dir_n = dir_entries_check(sd, 300 if thorough else 60)
+        try:
+            sql_bad, sql_n = sql_rows_check(sd, 300 if thorough else 60)
+        except Exception as e:
+            sql_bad, sql_n = [('sql_rows_check', 'exception', '%s: %s' % (type(e).__name__, e))], 0
+        try:
+            dir_bad, dir_n = dir_entries_check(sd, 300 if thorough else 60)
+        except Exception as e:
+            dir_bad, dir_n = [('dir_entries_check', 'exception', '%s: %s' % (type(e).__name__, e))], 0
         nproc = min(16, os.cpu_count() or 4)
         chunk = max(7, n // (nproc * 3))
         jobs = [(sd, lo, min(lo + chunk, n), nops) for lo in range(0, n, chunk)]
